@@ -6,11 +6,12 @@ import SquidModel.Properties.C35
 #print axioms SquidModel.C35.rfc850_round_trip
 #print axioms SquidModel.C35.denotes_unique
 #print axioms SquidModel.C35.denotes_valid
-#print axioms SquidModel.C35.imf_fixdate_denoted_partial
-#print axioms SquidModel.C35.asctime_denoted_partial
+#print axioms SquidModel.C35.imf_fixdate_denoted
+#print axioms SquidModel.C35.asctime_denoted
 #print axioms SquidModel.C35.rfc850_fixed_window
 #print axioms SquidModel.C35.rfc850_denoted_partial
 #print axioms SquidModel.C35.insane_fields_rejected
+#print axioms SquidModel.C35.insane_fields_rejected_rfc850
 #print axioms SquidModel.C35.parse_reads_63_bytes
-#print axioms SquidModel.C35.nonexistent_day_counterexample
+#print axioms SquidModel.C35.nonexistent_day_rejected
 #print axioms SquidModel.C35.rfc850_window_counterexample
